@@ -131,6 +131,9 @@ class Loader(importlib.abc.Loader):
         exec(code, module.__dict__)
         if 'math' in module.__dict__ and isinstance(module.__dict__['math'], types.ModuleType):
             module.__dict__['math'] = SX.math
+        import decimal
+        if module.__dict__.get('Decimal') is decimal.Decimal:
+            module.__dict__['Decimal'] = shims.sx_Decimal
 
 
 class Finder(importlib.abc.MetaPathFinder):
